@@ -12,7 +12,12 @@ package load
 //         disable                                     => disabled   (load.Disable(): what is created from now on is a nop shedder)
 //         allow k=<key> over=<0/1/d> cpu=<n> p=<id>   => ok|overloaded flying= avg= mp= rt= mf= ot= dr= cpuok= nan=
 //               over=d: the package's DEFAULT systemOverloadChecker runs (stat.CpuUsage() >= threshold on the injected reading)
+//               (nilpromise: Allow returned neither a promise nor an error)
 //         pass <id> | fail <id>                       => flying= avg=  | nopromise | nop
+//         getmany k=<key> n=<goroutines>              => distinct=<number of different shedders n concurrent GetShedder(key) calls returned>
+//               again=<1: a later GetShedder(key) returns one of them>        (group sections)
+//   cfg:  sampler=1 — the section exercises the REAL sampler goroutine of core/stat/usage.go (wall clock: its 250 ms ticker)
+//         sample prev=<n> n=<k>                       => seq=<v1,v2,…|-> : cpuUsage := prev, then the next k values the sampler stored
 //
 // `over` scripts the package variable systemOverloadChecker, `cpu` is stored into stat's cpuUsage
 // right before the call (what overloadFactor reads through stat.CpuUsage()); cpuok=0 reports that
@@ -25,6 +30,7 @@ import (
 	"math"
 	"math/big"
 	"strings"
+	"sync"
 	"sync/atomic"
 	"testing"
 	"time"
@@ -305,6 +311,10 @@ func c02Section(r *verifh.Rng, kind int) verifh.Section {
 		disableAt = r.Intn(nsteps)
 	}
 	for i := 0; i < nsteps; i++ {
+		if group == 1 && r.Chance(1, 3) {
+			// several goroutines ask for one key at once (first use or not): they must all get the same shedder
+			g.ops = append(g.ops, fmt.Sprintf("getmany k=%d n=%d", g.key(), r.Pick(2, 4, 8, 16)))
+		}
 		if i == disableAt {
 			g.ops = append(g.ops, "disable")
 			if group == 1 {
@@ -338,6 +348,9 @@ func c02Section(r *verifh.Rng, kind int) verifh.Section {
 
 func c02Gen(r *verifh.Rng) []verifh.Section {
 	var secs []verifh.Section
+	// the real CPU sampler: from a full and from an idle reading, two consecutive ticks each
+	secs = append(secs, verifh.Section{Cfg: "window=1000000000 buckets=10 threshold=900 t0=1 disabled=0 group=0 opts=wbt sampler=1",
+		Ops: []string{"sample prev=1000 n=2", "sample prev=0 n=1", fmt.Sprintf("sample prev=%d n=1", r.Pick(200, 400, 600, 800))}})
 	n := verifh.Scale(120, 1500)
 	for i := 0; i < n; i++ {
 		kind := 0
@@ -450,6 +463,45 @@ func TestVerifC02(t *testing.T) {
 			case "disable":
 				Disable()
 				return "disabled"
+			case "sample":
+				kv := c02KV(op)
+				vals := stat.VerifSampleTicks(verifh.Atoi64(kv["prev"]), int(verifh.Atoi64(kv["n"])), 1500*time.Millisecond)
+				if len(vals) == 0 {
+					return "seq=-"
+				}
+				var l []string
+				for _, v := range vals {
+					l = append(l, fmt.Sprint(v))
+				}
+				return "seq=" + strings.Join(l, ",")
+			case "getmany":
+				kv := c02KV(op)
+				n := int(verifh.Atoi64(kv["n"]))
+				if grp == nil || n < 1 {
+					return "bad-op"
+				}
+				got := make([]Shedder, n)
+				start := make(chan struct{})
+				var wg sync.WaitGroup
+				for i := 0; i < n; i++ {
+					wg.Add(1)
+					go func(i int) {
+						defer wg.Done()
+						<-start
+						got[i] = grp.GetShedder("k" + kv["k"])
+					}(i)
+				}
+				close(start)
+				wg.Wait()
+				seen := map[Shedder]bool{}
+				for _, s := range got {
+					seen[s] = true
+				}
+				again := 0
+				if seen[grp.GetShedder("k"+kv["k"])] {
+					again = 1
+				}
+				return fmt.Sprintf("distinct=%d again=%d", len(seen), again)
 			case "allow":
 				kv := c02KV(op)
 				over := kv["over"] == "1"
@@ -473,6 +525,9 @@ func TestVerifC02(t *testing.T) {
 						return "err " + err.Error()
 					}
 					head = "overloaded"
+				} else if p == nil {
+					// admitted without a promise: every caller resolves the promise unconditionally and would crash
+					return "nilpromise"
 				} else {
 					proms[kv["p"]] = c02Prom{p: p, as: as}
 				}
